@@ -374,14 +374,15 @@ def call_lib(text, op):
     return rec, out
 
 
-def call_cli(text, op, workdir, tag):
-    """transformer.main with argv, on a real input file; returns what it did."""
+def call_cli(text, op, workdir, tag, inplace=False):
+    """transformer.main with argv, on a real input file; returns what it did.
+    inplace: the output path is the input path (the tool is asked to edit the file where it is)."""
     from rnapolis import transformer
     inp = os.path.join(workdir, f"in-{tag}.cif")
-    outp = os.path.join(workdir, f"out-{tag}.cif")
+    outp = inp if inplace else os.path.join(workdir, f"out-{tag}.cif")
     with open(inp, "w", newline="") as f:
         f.write(text)
-    if os.path.exists(outp):
+    if not inplace and os.path.exists(outp):
         os.remove(outp)
     argv = ["transformer", inp, outp, "--category", op["cat"]]
     if op["kind"] == "copy":
@@ -405,7 +406,8 @@ def call_cli(text, op, workdir, tag):
         with open(outp, newline="") as f:
             rec["text"] = textrep(f.read())
         os.remove(outp)
-    os.remove(inp)
+    if not inplace:
+        os.remove(inp)
     return rec, textrep(inp)
 
 
@@ -452,7 +454,10 @@ def record(case):
                    lib={"err": librec["err"], "text": librec["text"]}, cli=clirec)
     if case["src"] != "corpus":
         clicase["in"] = doc      # kept for replay only (not read by the CLI clauses)
-    return [libcase, clicase]
+    # the same invocation with the output path equal to the input path (editing a file where it is)
+    clirec2, pathrep2 = call_cli(text, op, _workdir(), case["id"].replace("/", "_") + "-ip", inplace=True)
+    ipcase = dict(clicase, id=case["id"] + "-cli-inplace", path=pathrep2, cli=clirec2, inplace=True)
+    return [libcase, clicase, ipcase]
 
 
 def is_edit(case):
